@@ -4,7 +4,9 @@
      init mds_c mds_s
      rx   ep addr len                        a datagram was handed to ep from address addr
      auth ep addr kind ids                   ... and contained a packet the endpoint could authenticate:
-                                             kind = "handshake" | "onertt" | ...; ids = PATH_RESPONSE ids in it
+                                             kind = "handshake" | "onertt" | ...; ids = PATH_RESPONSE ids in it;
+                                             kind = "token": an Initial carrying the Retry token the server application
+                                             had issued to addr (Retry runs; the Retry packets are dg lines of ep "s")
      dg   ep to len hasInitial initialAckEl chal   a datagram left ep for address `to`
                                              (chal = PATH_CHALLENGE ids it carries) *)
 EXTENDS Emission, TraceBase
@@ -20,7 +22,7 @@ StepE(x, e) ==
   CASE e.ev = "rx"   -> [x EXCEPT !.rcvd = Put(@, e.addr, At(@, e.addr) + e.len)]
     [] e.ev = "auth" ->
          LET byResp == {a \in DOMAIN x.chal : x.chal[a] \cap ToSet(e.ids) # {}} IN
-         [x EXCEPT !.val = @ \cup byResp \cup (IF e.kind = "handshake" THEN {e.addr} ELSE {})]
+         [x EXCEPT !.val = @ \cup byResp \cup (IF e.kind \in {"handshake", "token"} THEN {e.addr} ELSE {})]
     [] e.ev = "dg"   -> [x EXCEPT !.sent = Put(@, e.to, At(@, e.to) + e.len),
                                   !.chal = Put(@, e.to, (IF e.to \in DOMAIN x.chal THEN x.chal[e.to] ELSE {}) \cup ToSet(e.chal))]
     [] OTHER -> x
